@@ -81,6 +81,12 @@ Proof.
   rewrite firstn_length. replace (Nat.min a (length x)) with a by lia. reflexivity.
 Qed.
 
+Lemma skipn_skipn (a b : nat) (l : bytes) : skipn a (skipn b l) = skipn (b + a) l.
+Proof.
+  revert l; induction b as [|b IH]; intros l; [reflexivity|].
+  destruct l as [|x l]; [destruct a; reflexivity|]. cbn [skipn Nat.add]. apply IH.
+Qed.
+
 (* ---- take n : the fixed-size parsers ---- *)
 Lemma take_RoundTrip n : RoundTrip (take n) (fun v => Ok v).
 Proof. intros x v r H. apply take_ok in H. destruct H as [E _]. eexists; split; [reflexivity|]. auto. Qed.
